@@ -272,4 +272,7 @@ def run(ctx):
                 hid += 1
                 History(ctx, r, p, hid, ctx.rng("c12", p["name"], hnum)).run(n_steps)
     fam.each_bin(per_bin)
+    gen = ctx.family("generic")
+    gen.each_bin(per_bin)
+    ctx.cov["generic_programs"] = len(gen.progs)
     ctx.cov["histories"] = sum(min(len(v), max_progs) for v in fam.bins().values()) * n_hist
